@@ -376,7 +376,7 @@ def run_check(prop, tier, budget=None, runs=None, seed=None, workers=None, no_mi
     else:
         sample_plans = [gen.gen(cfg['profile'], sd, tier, cfg.get('gopts')) for sd in samples[:2]]
     for sp in sample_plans:
-        for t in sp['tasks']:
+        for t in sp.get('tasks', []):
             if len(t.get('occ', [])) > 12:
                 t['occ'] = t['occ'][:12] + ['... %d more' % (len(t['occ']) - 12)]
     faults = {k: v for k, v in stats.items() if k in (
@@ -407,6 +407,20 @@ def run_check(prop, tier, budget=None, runs=None, seed=None, workers=None, no_mi
         'wall_s': round(wall, 2),
         'violations': len(out_viol),
     }
+    if prop == 'C10':
+        ev['coverage']['rule'] = (
+            'one evaluation = one input byte string (generated calendar, repository sample file, or a mutation/truncation) '
+            'delivered under 40-250 partitions (1-byte, fixed sizes around the 1 KiB and 4 KiB limits, seeded random sizes, every single cut '
+            'and sampled pairs of cuts at line ends, CR/LF, backslashes and fold blanks) through one of the two reader loops; '
+            'each delivery is compared with the one-piece delivery; non-trivial = the input yields at least one instruction and was delivered '
+            'in more than one way; distinct = by hash of (input, loop, block mode)')
+        ev['coverage']['deliveries'] = stats.get('deliveries', 0)
+        ev['coverage']['real_vs_stub'] = {
+            'libechse parser (echs_evical_push/pull/last_pull, _ical_pull, esccpy, _ical_proc, snarf_*)': 'real',
+            'reader loops of echsd (socket), echsd reload / echsx / echsq (file, stdin)': 're-implemented 1:1 in the harness around the real API (the originals are interleaved with process set-up)',
+            'recurrence engine (for the occurrence part of the dump)': 'real; crashes inside it are counted separately and not attributed to C10',
+        }
+        ev['coverage'].pop('simulated_seconds', None)
     if prop == 'C06':
         ev['coverage']['rule'] = (
             'one evaluation = one sampled request history whose checkpoint(s) after the MARK are enumerated completely: '
